@@ -6,6 +6,8 @@
  *   erase L idx | clear L | shrink L | sort L | swap L a b | ensure L idx | calc L idx
  *   front L | back L | get L idx | dump L | copy FROM TO | swapc A B
  *   forged L len (push_back val | push_front val | shrink)     -- length forged for the one call
+ *   init_full L count isz k0 (init_static_from_initialized over v<k0>, v<k0+1>, …) | clean_secure L | valid L
+ *   get_ptr L idx | fvalid len cs isz datanull (aws_array_list_is_valid on a forged structure)
  *   balance     -- cleans up every list, prints "P live=<blocks still live that the lists acquired>" (must be 0)
  *   val = hex of item_size bytes, or v<k>: byte i = (k*131 + i*29 + (i/128)*3) mod 256
  * output: "P rc=<OK|error name>", then for every list touched "P len L n", "W cs L current_size fnv=<hash of
@@ -53,8 +55,20 @@ static void *s_fill_acquire(struct aws_allocator *a, size_t size) {
     memset(p, FILL, size);
     return p;
 }
+/* clean_up_secure: the block handed back must be all zero over its whole size (size from hc_allocator's header) */
+static int s_secure_expect; /* 1 while inside clean_up_secure */
+static int s_secure_result; /* 0 nothing released, 1 released all-zero, 2 released with non-zero bytes */
 static void s_fill_release(struct aws_allocator *a, void *p) {
     (void)a;
+    if (s_secure_expect && p) {
+        size_t size = ((const size_t *)p)[-2];
+        s_secure_result = 1;
+        for (size_t i = 0; i < size; ++i) {
+            if (((const uint8_t *)p)[i]) {
+                s_secure_result = 2;
+            }
+        }
+    }
     aws_mem_release(hc_allocator(), p);
 }
 static struct aws_allocator s_fill_alloc = {
@@ -263,6 +277,71 @@ static void s_al_op(char **t, int n) {
         }
         return;
     }
+    if (!strcmp(op, "fcap") && n == 3) {
+        /* aws_array_list_capacity of a (valid, empty) structure whose current_size need not be a multiple of item_size */
+        if (!s_is_size(t[1]) || !s_is_size(t[2])) {
+            printf("bad-op\n");
+            return;
+        }
+        static uint8_t dummy2[8];
+        struct aws_array_list f;
+        AWS_ZERO_STRUCT(f);
+        f.alloc = &s_fill_alloc;
+        f.current_size = hc_parse_size(t[1]);
+        f.item_size = hc_parse_size(t[2]);
+        f.data = f.current_size ? dummy2 : NULL;
+        if (f.item_size == 0) {
+            printf("P skip\n");
+            return;
+        }
+        printf("P cap=%zu\n", aws_array_list_capacity(&f));
+        return;
+    }
+    if (!strcmp(op, "fvalid") && n == 5) {
+        if (!s_is_size(t[1]) || !s_is_size(t[2]) || !s_is_size(t[3]) || (strcmp(t[4], "0") && strcmp(t[4], "1"))) {
+            printf("bad-op\n");
+            return;
+        }
+        static uint8_t dummy[8];
+        struct aws_array_list f;
+        AWS_ZERO_STRUCT(f);
+        f.alloc = &s_fill_alloc;
+        f.length = hc_parse_size(t[1]);
+        f.current_size = hc_parse_size(t[2]);
+        f.item_size = hc_parse_size(t[3]);
+        f.data = t[4][0] == '1' ? NULL : dummy;
+        printf("P valid %d\n", aws_array_list_is_valid(&f) ? 1 : 0);
+        return;
+    }
+    if (!strcmp(op, "init_full") && n == 5) {
+        int k = s_parse_l(t[1]);
+        if (k < 0 || !s_is_size(t[2]) || !s_is_size(t[3]) || !s_is_size(t[4])) {
+            printf("bad-op\n");
+            return;
+        }
+        size_t cnt = hc_parse_size(t[2]), isz = hc_parse_size(t[3]), k0 = hc_parse_size(t[4]), total = 0;
+        bool ovf = aws_mul_size_checked(cnt, isz, &total) != AWS_OP_SUCCESS;
+        if (isz == 0 || cnt == 0 || cnt > LIMIT || isz > LIMIT || ovf || total > LIMIT || k0 > LIMIT) {
+            printf("P skip\n");
+            return;
+        }
+        s_slot_clean(&s_al[k]);
+        struct slot *s = &s_al[k];
+        s->block = malloc(total + 2 * CANARY);
+        memset(s->block, 0xA5, total + 2 * CANARY);
+        for (size_t e = 0; e < cnt; ++e) {
+            for (size_t i = 0; i < isz; ++i) {
+                s->block[CANARY + e * isz + i] = (uint8_t)(((k0 + e) * 131 + i * 29 + (i / 128) * 3) % 256);
+            }
+        }
+        s->raw_size = total;
+        s->is_static = true;
+        aws_array_list_init_static_from_initialized(&s->list, s->block + CANARY, cnt, isz);
+        s->have = true;
+        s_rc(AWS_OP_SUCCESS);
+        s_state(k);
+        return;
+    }
     if ((!strcmp(op, "copy") || !strcmp(op, "swapc")) && n == 3) {
         int a = s_parse_l(t[1]), b = s_parse_l(t[2]);
         if (a < 0 || b < 0) {
@@ -304,14 +383,40 @@ static void s_al_op(char **t, int n) {
         return;
     }
     struct slot *s = &s_al[k];
-    if (!strcmp(op, "clean") && n == 2) {
-        s_slot_clean(s);
+    if ((!strcmp(op, "clean") || !strcmp(op, "clean_secure")) && n == 2) {
+        bool secure = !strcmp(op, "clean_secure");
+        bool zeroed = true;
+        bool was_static = s->have && s->is_static;
+        if (s->have) {
+            if (secure) {
+                s_secure_expect = 1;
+                s_secure_result = 0;
+                aws_array_list_clean_up_secure(&s->list);
+                s_secure_expect = 0;
+            } else {
+                aws_array_list_clean_up(&s->list);
+            }
+            zeroed = AWS_IS_ZEROED(s->list);
+            s->have = false;
+        } else {
+            s_secure_result = 0;
+        }
         s_rc(AWS_OP_SUCCESS);
+        printf("P zeroed %d\n", zeroed ? 1 : 0);
+        if (secure) {
+            if (was_static) {
+                printf("W raw fnv=%016llx\n", (unsigned long long)s_fnv(s->block + CANARY, s->raw_size));
+            } else {
+                printf("P secure %s\n", s_secure_result == 0 ? "none" : s_secure_result == 1 ? "ok" : "NOT-ZEROED");
+            }
+        }
+        s_slot_clean(s);
         return;
     }
     static const char *known[] = {"push_back", "push_front", "set",   "pop_back", "pop_front", "pop_front_n",
                                   "erase",     "clear",      "shrink", "sort",     "swap",      "ensure",
-                                  "calc",      "front",      "back",   "get",      "dump",      "forged"};
+                                  "calc",      "front",      "back",   "get",      "dump",      "forged",
+                                  "valid",     "get_ptr"};
     if (!s->have) {
         for (size_t i = 0; i < sizeof(known) / sizeof(known[0]); ++i) {
             if (!strcmp(op, known[i])) {
@@ -413,6 +518,18 @@ static void s_al_op(char **t, int n) {
         int rc = aws_array_list_get_at(l, buf, hc_parse_size(t[2]));
         s_val_out(rc, buf, isz);
         free(buf);
+    } else if (!strcmp(op, "valid") && n == 2) {
+        printf("P valid %d\n", aws_array_list_is_valid(l) ? 1 : 0);
+    } else if (!strcmp(op, "get_ptr") && n == 3 && s_is_size(t[2])) {
+        void *ptr = NULL;
+        int rc = aws_array_list_get_at_ptr(l, &ptr, hc_parse_size(t[2]));
+        s_rc(rc);
+        if (rc == AWS_OP_SUCCESS) {
+            printf("P off=%zu\n", (size_t)((uint8_t *)ptr - (uint8_t *)l->data));
+            printf("P val ");
+            s_render(ptr, isz);
+            printf("\n");
+        }
     } else if (!strcmp(op, "dump") && n == 2) {
         uint8_t *buf = malloc(isz);
         size_t len = aws_array_list_length(l);
@@ -552,8 +669,20 @@ static void s_ll_state(void) {
         if (s_ll_init[j]) {
             s_walk(j, true);
             s_walk(j, false);
+            printf(
+                "P valid L%d %d %d %d %d\n",
+                j,
+                aws_linked_list_is_valid(&s_ll[j]) ? 1 : 0,
+                aws_linked_list_is_valid_deep(&s_ll[j]) ? 1 : 0,
+                aws_linked_list_node_is_in_list(&s_ll[j].head) ? 1 : 0, /* sentinels are not "in the list" */
+                aws_linked_list_node_is_in_list(&s_ll[j].tail) ? 1 : 0);
         }
     }
+    printf("P inl ");
+    for (int k = 0; k < NNODES; ++k) {
+        putchar(aws_linked_list_node_is_in_list(&s_node[k]) ? '1' : '0');
+    }
+    printf("\n");
     for (int k = 0; k < NNODES; ++k) {
         if (s_where[k] < 0) {
             s_name(s_node[k].next, a);
@@ -608,6 +737,9 @@ static void s_ll_op(char **t, int n) {
         if (s_ll_init[j] && s_count_in(j) != 0) {
             printf("P skip\n");
             return;
+        }
+        if (!s_ll_init[j]) {
+            memset(&s_ll[j], 0x5A, sizeof(s_ll[j])); /* init must not rely on zeroed memory */
         }
         aws_linked_list_init(&s_ll[j]);
         s_ll_init[j] = true;
@@ -732,6 +864,100 @@ static void s_ll_op(char **t, int n) {
         }
         printf("P pop %s\n", nm);
         s_ll_state();
+        return;
+    }
+    if (n == 2 && (!strcmp(op, "begin") || !strcmp(op, "end") || !strcmp(op, "rbegin") || !strcmp(op, "rend"))) {
+        int j = s_parse_list(t[1]);
+        if (j < 0) {
+            printf("bad-op\n");
+            return;
+        }
+        if (!s_ll_init[j]) {
+            printf("P skip\n");
+            return;
+        }
+        const struct aws_linked_list_node *p = !strcmp(op, "begin")    ? aws_linked_list_begin(&s_ll[j])
+                                               : !strcmp(op, "end")    ? aws_linked_list_end(&s_ll[j])
+                                               : !strcmp(op, "rbegin") ? aws_linked_list_rbegin(&s_ll[j])
+                                                                       : aws_linked_list_rend(&s_ll[j]);
+        s_name(p, nm);
+        printf("P %s %s\n", op, nm);
+        return;
+    }
+    if (n == 3 && !strcmp(op, "fvalid")) {
+        int j = s_parse_list(t[1]);
+        if (j < 0) {
+            printf("bad-op\n");
+            return;
+        }
+        if (!s_ll_init[j]) {
+            printf("P skip\n");
+            return;
+        }
+        struct aws_linked_list saved = s_ll[j];
+        if (!strcmp(t[2], "hn")) {
+            s_ll[j].head.next = NULL;
+        } else if (!strcmp(t[2], "hp")) {
+            s_ll[j].head.prev = &s_ll[j].tail;
+        } else if (!strcmp(t[2], "tp")) {
+            s_ll[j].tail.prev = NULL;
+        } else if (!strcmp(t[2], "tn")) {
+            s_ll[j].tail.next = &s_ll[j].head;
+        } else {
+            printf("bad-op\n");
+            return;
+        }
+        int v = aws_linked_list_is_valid(&s_ll[j]) ? 1 : 0;
+        s_ll[j] = saved;
+        printf("P fvalid %d\n", v);
+        return;
+    }
+    if (n == 3 && !strcmp(op, "fdeep")) {
+        int j = s_parse_list(t[1]), k = s_parse_node(t[2]);
+        if (j < 0 || k < 0) {
+            printf("bad-op\n");
+            return;
+        }
+        if (!s_ll_init[j] || s_where[k] != j) {
+            printf("P skip\n");
+            return;
+        }
+        struct aws_linked_list_node *saved = s_node[k].prev;
+        s_node[k].prev = NULL;
+        int v = aws_linked_list_is_valid_deep(&s_ll[j]) ? 1 : 0;
+        s_node[k].prev = saved;
+        printf("P fdeep %d\n", v);
+        return;
+    }
+    if (n == 4 && !strcmp(op, "probe")) {
+        int k = s_parse_node(t[1]);
+        struct aws_linked_list_node *lk[2] = {NULL, NULL};
+        bool ok = k >= 0;
+        for (int q = 0; q < 2 && ok; ++q) {
+            int idx = 0, kind = 0;
+            if (!strcmp(t[2 + q], "null")) {
+                lk[q] = NULL;
+            } else if ((kind = s_parse_ref(t[2 + q], &idx)) != 0) {
+                lk[q] = kind == 1 ? &s_node[idx] : kind == 2 ? &s_ll[idx].head : &s_ll[idx].tail;
+            } else {
+                ok = false;
+            }
+        }
+        if (!ok) {
+            printf("bad-op\n");
+            return;
+        }
+        if (s_where[k] >= 0) {
+            printf("P skip\n");
+            return;
+        }
+        s_node[k].next = lk[0];
+        s_node[k].prev = lk[1];
+        int a = aws_linked_list_node_next_is_valid(&s_node[k]) ? 1 : 0;
+        int b = aws_linked_list_node_prev_is_valid(&s_node[k]) ? 1 : 0;
+        int c = aws_linked_list_node_is_in_list(&s_node[k]) ? 1 : 0;
+        AWS_ZERO_STRUCT(s_node[k]);
+        printf("P probe %d %d %d\n", a, b, c);
         return;
     }
     if (n == 2 && !strcmp(op, "remove")) {
